@@ -220,6 +220,7 @@ def gen_case(rng, stream):
     if rng.random() < 0.12:
         c["chardet"] = pick_name(rng, codec)[0] if rng.random() < 0.85 else rng.choice(["", "UTF-8", "Windows-1252", "ascii"])
     c["builder"] = is_html and not override and len(known) <= 1 and len(user) <= 1 and len(markup) < 5000
+    c["ctor_style"] = rng.choice([0, 0, 0, 1, 3])
     c.update(markup_hex=markup.hex(), is_html=is_html, known=known, user=user, exclude=exclude, override=override, soup=soup,
              text=tkey, codec=codec, bom=bom, decl=kind, declname=dname, declclass=dclass)
     if have_truth:
@@ -471,10 +472,16 @@ def real_soup(c):
     m = case_markup(c)
     fe = c["known"][0] if c["known"] else None
     del _FED[:]
+    kw = {"from_encoding": fe}
+    style = c.get("ctor_style", 0)
+    if style == 1:      # the deprecated keyword alone
+        kw = {"fromEncoding": fe}
+    elif style == 3:    # empty from_encoding falls back to the deprecated keyword
+        kw = {"from_encoding": "", "fromEncoding": fe}
     with warnings.catch_warnings(), chardet_as(c):
         warnings.simplefilter("ignore")
         try:
-            s = BeautifulSoup(m, "html.parser", from_encoding=fe, exclude_encodings=list(c["exclude"]) or None)
+            s = BeautifulSoup(m, "html.parser", exclude_encodings=list(c["exclude"]) or None, **kw)
         except ParserRejectedMarkup:
             return "rejected"
     return dict(text=_FED[-1] if _FED else None, enc=s.original_encoding, decl=s.declared_html_encoding, repl=s.contains_replacement_characters)
@@ -583,14 +590,17 @@ def eval_case(c):
         if c.get("soup"):
             rs = real_soup(c)
             fe = c["known"][0] if c["known"] else None
+            style = c.get("ctor_style", 0)
+            fe_new, fe_old = {0: (fe, None), 1: (None, fe), 3: ("", fe)}[style]
+            fe = fe_new or fe_old     # what the documentation of the deprecated alias says: from_encoding, else fromEncoding
             os_ = oracle(m, [fe] if fe else [], [], c["exclude"], True, declared_of, ch)
             want = "rejected" if os_["text"] is None else {k: os_[k] for k in ("text", "enc", "decl", "repl")}
             if rs != want:
                 viol.append(dict(what="BeautifulSoup constructor: decoded text / original_encoding / declared_html_encoding / contains_replacement_characters differ from the property statement",
                                  expected=short(want), observed=short(rs), stream=c["stream"] + "/soup"))
-            lines.append(f"c07 prepare {mb} {p_opt(fe)} none {p_names(c['exclude'])} {p_opt(ch)} {p_bytes(stripped)} {tab} {txt}")
+            lines.append(f"c07 construct {mb} {p_opt(fe_new)} {p_opt(fe_old)} {p_names(c['exclude'])} {p_opt(ch)} {p_bytes(stripped)} {tab} {txt}")
             expect.append((("ok " + fmt_res(rs)) if rs != "rejected" else "rejected") if not light else None)
-            tags.append("prepare")
+            tags.append("construct")
         if c.get("builder"):
             # prepare_markup itself, with a document_declared_encoding (the builder API; the constructor never passes one)
             rp = real_prepare(c)
